@@ -216,5 +216,11 @@ Fin(st, n) ==
     [] k = "subjobs" ->          \* Subject::is_finished = observers.rc_deref().is_none()
          LET on == st.nodes[st.subj[nd.c].o] IN IF RHeld(on) THEN 2 ELSE IF on.f THEN 0 ELSE 1
     [] k = "futobs" \/ k = "strobs" -> IF nd.g THEN 1 ELSE 0      \* sender.is_closed()
+    [] k = "group_by" ->         \* the stream of groups is finished and so is every group announced so far (q2 = their subjects)
+         LET outer == Fin(st, nd.d)
+             on(i) == st.nodes[st.subj[nd.q2[i]].o] IN
+         IF outer # 1 THEN outer
+         ELSE IF \E i \in 1..Len(nd.q2) : RHeld(on(i)) THEN 2
+         ELSE IF \A i \in 1..Len(nd.q2) : ~on(i).f THEN 1 ELSE 0
     [] OTHER -> Fin(st, nd.d)
 =============================================================================
